@@ -114,13 +114,15 @@ int32_t matrixSslValidatePeerCerts(ssl_t *ssl,
 
     if (rc < 0)
     {
+        /* The user cert callback must never be told "no alert" about
+           a chain that failed internal validation. */
+        if (ssl->err == SSL_ALERT_NONE)
+        {
+            ssl->err = SSL_ALERT_BAD_CERTIFICATE;
+        }
         if (ssl->sec.validateCert == NULL)
         {
             /* Internal validation failed and there is no user cert callback. */
-            if (ssl->err == SSL_ALERT_NONE)
-            {
-                ssl->err = SSL_ALERT_BAD_CERTIFICATE;
-            }
             return MATRIXSSL_ERROR;
         }
     }
